@@ -52,6 +52,8 @@ type Run struct {
 	Caps        []string
 	Extra       map[string]any
 	Assumptions []string
+	// Collector, when set, receives violations instead of the normal reporting (worker subprocesses).
+	Collector func(signature, msg string, replay any)
 }
 
 func NewRun(prop, tier, verifDir string) *Run {
@@ -141,6 +143,11 @@ func (r *Run) Violation(signature, msg string, replay any) bool {
 		return false
 	}
 	r.seenSig[signature] = true
+	if r.Collector != nil {
+		r.violations++
+		r.Collector(signature, msg, replay)
+		return true
+	}
 	for _, k := range r.known {
 		if k.Property == r.Prop && k.Signature == signature && k.Status == "known" {
 			r.knownHits[signature]++
